@@ -215,6 +215,32 @@ def fill_of(cfg):
     return expected_fill(cfg["dtype"], nd(cfg.get("dst_nodata")), nd(cfg.get("src_nodata")), nd(cfg.get("nodata_attr")))
 
 
+def flipped_identity_tile(cfg):
+    """rasterio/GDAL treat a grid whose transform is exactly (+-1, 0, 0, 0, +-1, 0) as not georeferenced.
+    True when a destination chunk or a possible source window of this configuration has such a transform:
+    unit pixels and a tile corner exactly at the world origin."""
+    for which in ("src", "dst"):
+        tr = cfg[which + "_tr"]
+        if [abs(tr[0]), tr[1], tr[3], abs(tr[4])] != [1, 0, 0, 1]:
+            continue
+        px, py = (0 - tr[2]) / tr[0], (0 - tr[5]) / tr[4]
+        if px != int(px) or py != int(py):
+            continue
+        h, w = cfg[which + "_shape"]
+        if which == "src":
+            oy, ox = offsets(cfg["src_chunks"][0]), offsets(cfg["src_chunks"][1])
+        else:
+            cy, cx = cfg["dst_chunks"]
+            oy, ox = list(range(0, h, cy)), list(range(0, w, cx))
+        if int(py) in oy[:len(oy) - (which == "src")] and int(px) in ox[:len(ox) - (which == "src")]:
+            return True
+    return False
+
+
+def classify(cfg, key):
+    return "flipped-identity-tile" if flipped_identity_tile(cfg) else key
+
+
 def p_equal(cfg):
     """same CRS, nearest: chunked == whole pixel for pixel; unreached pixels hold the fill"""
     try:
@@ -435,7 +461,7 @@ PREDICATES = {"equal": p_equal, "fill": p_fill, "disjoint": p_disjoint, "direct"
 SRC_GRIDS = [   # (transform, crs): power-of-two resolutions keep every coordinate operation exact
     ([16, 0, 0, 0, -16, 256], "epsg:3857"),
     ([0.25, 0, 100, 0, -0.25, -30], "epsg:4326"),
-    ([1, 0, -3, 0, -1, 7], "epsg:3577"),
+    ([1, 0, 1021, 0, -1, -2043], "epsg:3577"),   # unit pixels, far from the world origin (see flipped_identity_tile)
     ([10, 0, 500000, 0, -10, 6000000], "epsg:32633"),   # not a power of two: no half-pixel placements below
 ]
 
@@ -755,7 +781,7 @@ def clip_cases(out, rng, n):
     return cases
 
 
-def deps_variants(rng, real, exact, nsy, nsx):
+def deps_variants(rng, real, exact, nsy, nsx, has_sn):
     """dependency maps substituted for grid_intersect: exact, with superfluous tiles, with one tile
     dropped, absent keys, and (malformed stream) an index past the last block"""
     yield "real", None
@@ -765,7 +791,7 @@ def deps_variants(rng, real, exact, nsy, nsx):
     yield "extra", extra
     drop = {k: list(v) for k, v in exact.items()}
     full = [k for k, v in drop.items() if v]
-    if full:
+    if full and has_sn:   # without a source nodata the 0/NaN of a missing block is data that GDAL may move off dst_nodata
         k = rng.choice(full)
         drop[k].pop(rng.randrange(len(drop[k])))
         yield "dropped", drop
@@ -814,6 +840,7 @@ def run(out, tier, scratch):
         out.case((name, json.dumps(cfg, sort_keys=True)), True,
                  {"predicate": name, "cfg": cfg, "result": detail} if name == "equal" and len(out.samples) < 5 else None)
         if not ok:
+            key = classify(cfg, key)
             out.count("violated:" + key)
             if key not in found:
                 found[key] = True
@@ -846,7 +873,8 @@ def run(out, tier, scratch):
         dch = r0["dchunks"]
         exact = exact_deps(r0["nn"], (offsets(cfg["src_chunks"][0]), offsets(cfg["src_chunks"][1])),
                            (offsets(dch[0]), offsets(dch[1])), cfg["src_shape"][1])
-        for mode, deps in deps_variants(rng, real, exact, len(cfg["src_chunks"][0]), len(cfg["src_chunks"][1])):
+        for mode, deps in deps_variants(rng, real, exact, len(cfg["src_chunks"][0]), len(cfg["src_chunks"][1]),
+                                        cfg.get("src_nodata") is not None):
             if mode != "real" and rng.random() < 0.35 and mode != "malformed":
                 continue
             r = r0 if deps is None else run_direct(cfg, deps)
@@ -897,6 +925,8 @@ def run(out, tier, scratch):
 def replay(rp) -> int:
     name = rp["predicate"]
     ok, detail, key = PREDICATES[name](*rp["args"])
+    if not ok:
+        key = classify(rp["args"][0], key)
     print(f"replay {name} {json.dumps(rp['args'])[:400]}: {'holds' if ok else 'FAILS'}: {detail}")
     return 0 if ok else 1
 
